@@ -17,6 +17,11 @@ static volatile int flag;
 static volatile long cs_owner[2];
 static _Atomic int nfinished;
 
+static void* child_prog(void* param) {
+  if (param) fiber_yield();
+  return param;
+}
+
 static void* fiber_prog(void* param) {
   int f = (int)(intptr_t)param;
   int held[2] = {0, 0};
@@ -52,6 +57,17 @@ static void* fiber_prog(void* param) {
           fiber_mutex_unlock(&mtx[0]);
         }
         break;
+      case 10: {  /* create a child and join it (set_and_wait / clear_or_wait on both sides) */
+        fiber_t* c = fiber_create(20000, &child_prog, (void*)(intptr_t)a);
+        void* res = NULL;
+        r = (fiber_join(c, &res) == FIBER_SUCCESS && res == (void*)(intptr_t)a) ? 0 : 7;
+        break;
+      }
+      case 11: {  /* create a detached child */
+        fiber_t* c = fiber_create(20000, &child_prog, (void*)(intptr_t)a);
+        fiber_detach(c);
+        break;
+      }
       default: break;
     }
     rt_event(1000 + f, K_RET, r ? r : k + 1);
